@@ -12,7 +12,17 @@ package main
 //   * times are compared as instants (UTC, monotonic reading stripped);
 //   * a zero-valued field with a `default:` tag or auto-time tag may be replaced by gorm: then only
 //     loaded == in-memory-after-Create is demanded (plus == NowFunc for auto-time);
-//   * map reads are compared on the stored representation (bool as 0/1, integral REAL == INTEGER).
+//   * map reads are compared on the stored representation (bool as 0/1, integral REAL == INTEGER);
+//   * a nil pointer to a self-serializing / Scanner struct type equals a pointer to its zero value;
+//   * map keys of Create-from-map are column names on schemas with crossing names (a key that is both a column and
+//     another field's Go name means the column);
+//   * Pluck is asked only for non-pointer plain kinds (it scans into a bare *T, NULL is not representable there);
+//     maps read through the model only for schemas of plainly stored kinds.
+// SCHEMA NAMING STYLES: plain (F<i>/f<i>, renamed columns) | cycle | chain | cycle+emb — in the cross styles the column
+// of one field is the Go name of another field (or of an embedded member), see c03GenSchema.
+// READ PATHS (every one pushes several rows through the same scan code; all copies are judged after ALL loads, then
+// one copy is overwritten and the others must not change): Find(&[]T), Find(&[]*T), Find(&[]map), Model.Find(&[]map),
+// Rows+ScanRows, FindInBatches, Find(&[]Small), Pluck, First, Take, Take(&map); Joins in c03_joins.go.
 // EXCLUDED from generation (not representable in SQLite/go-sqlite3 or ill-formed): uint64 >= 2^63, NaN, -0.0
 // (SQLite hands it back as 0.0), defined bool types without Scanner (database/sql cannot scan SQLite's integer
 // into them), NUL bytes and invalid UTF-8 in strings, times outside years 1..9999, empty-but-non-nil slices/maps inside
